@@ -120,9 +120,11 @@ func (s *Server) Serve(req *http.Request, d time.Duration) Result {
 	ctx, cancel := context.WithTimeout(s.Base, d)
 	defer cancel()
 	req = req.WithContext(ctx)
-	if req.Host == "" {
+	// an HTTP/1.0 client may send no Host header at all: a harness asks for that with the marker header
+	if req.Host == "" && req.Header.Get("X-Verif-No-Host") == "" {
 		req.Host = DNSName
 	}
+	req.Header.Del("X-Verif-No-Host")
 	done := make(chan Result, 1)
 	go func() {
 		rec := httptest.NewRecorder()
